@@ -63,7 +63,7 @@ def match_finding(c, rec):
         if m.get("func", "") != rec.get("func", ""):
             continue
         st = rec.get("stage", "")
-        if not st.startswith("cli-") and st not in m.get("stages", []):
+        if st not in m.get("stages", []) and not (st in ("cli-build", "cli-validate") and rec.get("type") == "panic"):
             continue
         if rk not in m.get("kinds", []) and "*" not in m.get("kinds", []):
             continue
@@ -189,6 +189,24 @@ def cli_sample(c, repo, seed, nrandom, total, quick):
             c.report("gobl %s crashes (exit %d) in %s on %s member %s mutation %s: %s" %
                      (cmd, p.returncode, fn, inp["doc"], inp["path"], inp["kind"], rec["msg"]),
                      replay_obj(rec), finding_id=match_finding(c, rec))
+    # usage / file errors of the command line itself: the record must still be {code, key|message}
+    for args in (["nosuchcommand"], ["build", "--nosuchflag"], ["validate", "/nonexistent/input.json"],
+                 ["sign", "-k", "/nonexistent/key.jwk", "/nonexistent/input.json"]):
+        p = subprocess.run([gobl] + args, stdin=subprocess.DEVNULL, stdout=subprocess.PIPE, stderr=subprocess.PIPE, timeout=60)
+        err = "\n".join(l for l in p.stderr.decode("utf-8", "replace").splitlines() if not l.startswith("WARNING conda"))
+        c.count("cli-usage", 1, tuple(args))
+        try:
+            obj = json.loads(err)
+            ok = p.returncode == 1 and isinstance(obj, dict) and isinstance(obj.get("code"), int) and \
+                (obj.get("key") in DOCUMENTED if "key" in obj else bool(obj.get("message")))
+        except ValueError:
+            ok = False
+        if not ok:
+            rec = {"type": "baderr", "stage": "cli-usage", "func": "", "kind": "usage", "doc": "", "path": " ".join(args),
+                   "msg": "CLI error record: " + " ".join(err.split())[:160], "data": ""}
+            c.report("`gobl %s` (exit %d) prints an error record without code and key/message: %s" %
+                     (" ".join(args), p.returncode, " ".join(err.split())[:160]),
+                     {"command": "bin/gobl " + " ".join(args), "stderr": err[:400]}, finding_id=match_finding(c, rec))
     return bad
 
 
